@@ -144,7 +144,7 @@ def account(chk, cells, res, stats, crashed, risky):
             k = (c['cfg'], c['fn'], c['ed'])
             big = max([x for x in c['sh'].values()] + [0]) > 3
             for i in r['risky'][:1 if big else 3]:
-                if risky.get(k, 0) < 24:
+                if risky.get(k, 0) < 6:
                     risky[k] = risky.get(k, 0) + 1
                     crashed.append((dict(c, subset=[i], run_risky=True, _single=True), None))
             st[2] += len(r['risky'])
